@@ -202,10 +202,12 @@ EXECUTORS = {"catalog": ex_catalog}
 
 
 def install(ctx):
-    pass
+    from ..core import set_process_time_zone
+    set_process_time_zone(ctx)
 
 
 def run(ctx):
+    install(ctx)
     thorough = ctx.tier == "thorough"
     n = (480000 if thorough else 1600) // ctx.nshards
     for j in range(n):
